@@ -300,8 +300,11 @@ def rule_attack_ops(ctx):
         paired = None
         for u, i in cands:
             if t.op.endswith("Option::take"):
-                # increment guarded by is_some(take result)
+                # increment guarded by is_some(take result), or on the Some arm of a match / `if let` on it
                 for c in conditions(b, u.site.bb):
+                    if c.is_discr and on_some_arm(c):
+                        if any(o.kind == "call" and o.site is not None and o.site.bb == t.site.bb for o in origins(b, c.place, transparent=())):
+                            paired = u
                     if c.is_true():
                         for o in origins(b, c.place, transparent=()):
                             if o.kind == "call" and callee_matches(o.data, r"^core::option::Option::is_some$"):
